@@ -491,7 +491,7 @@ func oracle(c Case) vkit.Outcome {
 		out.Inconclusive = "cannot start worker"
 		return out
 	}
-	r := w.Call("measure", measureReq{Entry: c.Entry, Cfg: c.Cfg, Src: c.Src, N1: batch1, N2: batch2}, 90*time.Second)
+	r := w.Call("measure", measureReq{Entry: c.Entry, Cfg: c.Cfg, Src: c.Src, N1: batch1, N2: batch2}, 45*time.Second)
 	switch r.Status {
 	case workerproc.Timeout:
 		out.Inconclusive = "timeout"
